@@ -72,7 +72,14 @@ Definition chk_C14 (c o : value) : bool :=
           Nat.eqb (nfinished l) 1 &&
           (if Nat.eqb (nerrors l) 0 then beq (written l) (wanted content from to)
            else negb (has_write (after_first is_error l)) && Nat.eqb (nfinished (after_first is_error l)) 1)
-        else true
+        else
+          (* sequential source: completion exactly once whatever fails; a failed open is one error, that completion, and
+             nothing more whatever the source delivers afterwards *)
+          Nat.eqb (nfinished l) 1 &&
+          (match flags with
+           | VI f1 :: VI f2 :: _ => if as_bool f1 || as_bool f2 then Nat.eqb (nerrors l) 1 && negb (has_write l) else true
+           | _ => true
+           end)
       else if kind =? 4 then
         beq (written l) content && Nat.eqb (nfinished l) 1 && negb (has_write (after_first is_finished l)) &&
         Nat.eqb (nerrors l) 0
